@@ -44,6 +44,14 @@ def _eval_bool(expr, env):
         return env[expr.id]
     if isinstance(expr, ast.UnaryOp) and isinstance(expr.op, ast.Not):
         return not _eval_bool(expr.operand, env)
+    if isinstance(expr, ast.BoolOp):
+        vals = [_eval_bool(v, env) for v in expr.values]
+        return all(vals) if isinstance(expr.op, ast.And) else any(vals)
+    if isinstance(expr, ast.Attribute) and expr.attr in env.get("__properties__", {}):
+        return _eval_bool(env["__properties__"][expr.attr], env)      # a boolean property of the operator: its returned expression
+    if isinstance(expr, ast.Call) and ((isinstance(expr.func, ast.Attribute) and expr.func.attr == "any" and (
+            (expr.args and ast.unparse(expr.args[0]).endswith("error")) or ast.unparse(expr.func.value).endswith("error")))):
+        return env["__has_error__"] and not env.get("__error_is_zero__", False)
     if isinstance(expr, ast.Compare) and len(expr.ops) == 1 and isinstance(expr.comparators[0], ast.Constant) \
             and expr.comparators[0].value is None and ast.unparse(expr.left).endswith("error"):
         has_err = env["__has_error__"]
@@ -99,8 +107,14 @@ def fs_invariant(chk, src, pe):
             if any(k == "unlink" for _, _, k in _write_sites(n, set())):
                 loop_unlink_all_others = True
     bad_state = None
-    for has_error in (True, False):
-        env = {"__has_error__": has_error}
+    ocls = src.cls("eko.io.items.Operator")
+    props = {}
+    for nm, m in ocls.methods.items():
+        rets = [x for x in ast.walk(m.node) if isinstance(x, ast.Return) and x.value is not None]
+        if "property" in m.decorator_names() and len(rets) == 1 and len(m.node.body) <= 2:
+            props[nm] = rets[0].value
+    for has_error, zero in ((True, False), (True, True), (False, False)):
+        env = {"__has_error__": has_error, "__error_is_zero__": zero, "__properties__": props}
         # resolve boolean locals such as with_err
         for name, val in defs.items():
             try:
@@ -135,7 +149,10 @@ def fs_invariant(chk, src, pe):
                 if guaranteed:
                     removed.add(1 if _eval_bool(e, env) else 0)
         except KeyError as ex:
-            chk.need(False, f"cannot evaluate the err= argument {ex} of operator_name in __setitem__")
+            # the abstract reading of the err= argument is a convenience: the invariant itself is decided on every bounded history
+            # of operations on the model file system (section 4), whatever the spelling
+            chk.note(abstract_file_effects=f"not extracted: the err= argument depends on {ex}")
+            return cls, fset, fdel, fget, defs, sites
         if loop_unlink_all_others:
             removed |= {0, 1} - written
         for prior in (set(), {0}, {1}):
